@@ -14,7 +14,13 @@ From Coq Require Import ZArith List Bool Arith.
 From KV Require Import Base.Outcome Base.Corr C08.Model.
 Import ListNotations.
 
-Inductive op := OCreate | OMark (p : Z) | OCallback | OCreateFailing (late built : bool).
+Inductive op := OCreate | OMark (p : Z) | OCallback | OCreateFailing (late built : bool)
+(** the owner of the storage (a parent track) is paused (0), resumed (1), told to resume at a clock time
+    that never comes (2): nothing to do with the storage — no step, no observable *)
+| OParent (what : Z)
+(** the handle that owns the gameplay side of the storage is dropped while the storage lives on: no step
+    either; the count and the capacity can no longer be asked for *)
+| OAbandon.
 
 Inductive case :=
 | CHist (selfref prebuild : bool) (cap : Z) (mask : Z) (ops : list op)
@@ -107,6 +113,9 @@ Fixpoint run_ops (cf : cfg) (mask : Z) (ops : list op) (s : state) : list Z :=
       | Panic w => [2%Z; panic_code w]
       | Hang => [3%Z]
       end
+  | OParent _ :: rest => run_ops cf mask rest s
+  | OAbandon :: rest =>
+      run_ops cf (Z.land mask (Z.lnot (Z.lor M_LEN M_CAP))) rest s
   | OCallback :: rest =>
       match run cf (callback_sched cf s) s with
       | Ok s1 => 0%Z :: callback_obs mask s1 ++ suffix mask s s1 ++ run_ops cf mask rest s1
